@@ -104,13 +104,13 @@ def _cat(parts):
 
 @obligation(params=dict(k1=Bytes(2), k2=Bytes(2), o1=Bytes(2, min=1), o2=Bytes(1, min=1), nk=Int(0, 2), no=Int(0, 2),
                         r0=Int(1, 3), r1=Int(1, 3), r2=Int(1, 3), r3=Int(0, 0), exits=Bool(), partial=Bool(),
-                        pend=Bytes(1), poll=Bool(), filt=Bool()),
+                        pend=Bytes(1), poll=Bool(), filt=Bool(), drop=Int(0, 2)),
             tags={2: 'escape typed', 3: 'child exited', 4: 'escape typed twice in one read', 5: 'nothing more to copy'},
             timeout=900, split=('nk', 'no', 'r0'), twin_timeout=40,
             thorough=dict(params=dict(k1=Bytes(3), k2=Bytes(3), o1=Bytes(3, min=1), o2=Bytes(3, min=1), r3=Int(1, 3),
                                       pend=Bytes(2)), timeout=3000, split=('nk', 'no', 'r0', 'r1')),
             note='bytes mode: symbolic keystrokes and child output, readiness script of four turns')
-def I1_copy(k1, k2, o1, o2, nk, no, r0, r1, r2, r3, exits, partial, pend, poll, filt):
+def I1_copy(k1, k2, o1, o2, nk, no, r0, r1, r2, r3, exits, partial, pend, poll, filt, drop=0):
     nk, no = pick(nk, 0, 2), pick(no, 0, 2)
     keys = [k1, k2][:nk]
     outs = [o1, o2][:no]
@@ -147,8 +147,12 @@ def I1_copy(k1, k2, o1, o2, nk, no, r0, r1, r2, r3, exits, partial, pend, poll, 
         seen_in.append(b)
         return b
 
+    drop = pick(drop, 0, 2) if filt else 0
+
     def fout(b):
         seen_out.append(b)
+        if drop and len(seen_out) == drop:
+            return b[:0]                 # the filter swallows this whole chunk (e.g. strips a lone BEL)
         return b
     with patched(PS, os=_OS, tty=tty, select_ignore_interrupts=sel, poll_ignore_interrupts=pol):
         try:
@@ -166,10 +170,14 @@ def I1_copy(k1, k2, o1, o2, nk, no, r0, r1, r2, r3, exits, partial, pend, poll, 
     ks, os_ = list(keys), list(outs)
     escaped = False
     twice = False
+    nout = 0
     for r in w.ready[:w.turn]:
         if r & 1:
             if os_:
-                exp_out = exp_out + os_.pop(0)
+                chunk = os_.pop(0)
+                nout += 1
+                if not (drop and nout == drop):
+                    exp_out = exp_out + chunk
             else:
                 break               # EIO: the loop ended here
         if r & 2:
@@ -186,7 +194,7 @@ def I1_copy(k1, k2, o1, o2, nk, no, r0, r1, r2, r3, exits, partial, pend, poll, 
         return 0
     if not (_cat(w.to_stdout) == exp_out):
         return 0
-    if filt:
+    if filt and not drop:
         if not (_cat(seen_out) == exp_out):
             return 0
     if escaped:
@@ -287,7 +295,7 @@ def I3_logging(uni, lr, ls, lf, o1, k1):
 
 def dry_runs():
     yield 'I1_copy', dict(k1=b'ab\x1d', k2=b'zz', o1=b'xy', o2=b'q', nk=2, no=2, r0=1, r1=2, r2=3, r3=3, exits=True,
-                          partial=True, pend=b'P', poll=False, filt=True)
+                          partial=True, pend=b'P', poll=False, filt=True, drop=1)
     yield 'I1_copy', dict(k1=b'a\x1db\x1dc', k2=b'zz', o1=b'xy', o2=b'q', nk=1, no=1, r0=3, r1=1, r2=1, r3=0, exits=True,
                           partial=False, pend=b'', poll=True, filt=False)
     yield 'I2_restore_on_error', dict(boom=2, o1=b'x', k1=b'y')
